@@ -49,8 +49,13 @@ pub(crate) enum SectionKind<'data> {
 
 /// Rules governing how input sections should be mapped to output sections.
 pub(crate) struct SectionRules<'data> {
-    /// Rules by the hash of the first 4 bytes of the name.
-    rules: HashTable<SectionRule<'data>>,
+    /// Rules whose name starts with at least 4 literal bytes, by the hash of those bytes. Each
+    /// rule is stored with its position in the list of rules.
+    rules: HashTable<(usize, SectionRule<'data>)>,
+
+    /// Rules that can't be keyed that way, because their name is shorter than 4 bytes or has a
+    /// wildcard among its first 4 bytes. There are usually none. They're tried in order.
+    unkeyed_rules: Vec<(usize, SectionRule<'data>)>,
 }
 
 /// Determines how a section name pattern is matched against input section names.
@@ -74,6 +79,16 @@ impl<'data> SectionNameMatcher<'data> {
             Self::Exact(n) => n.as_ref(),
             Self::Prefix(n) | Self::Glob(n, _) => n,
         }
+    }
+
+    /// Returns the hash that every name matched by this matcher has, if there is one. There isn't
+    /// if fewer than 4 leading bytes of the name are fixed by the matcher.
+    fn key_hash(&self) -> Option<u64> {
+        let key = self.prefix_bytes().get(..4)?;
+        if matches!(self, Self::Glob(..)) && key.iter().any(|b| b"*?[\\".contains(b)) {
+            return None;
+        }
+        Some(hash_bytes(key))
     }
 }
 
@@ -434,14 +449,17 @@ impl<'data> SectionRules<'data> {
     fn from_rules(rules: &[SectionRule<'data>]) -> Self {
         let mut map = SectionRules {
             rules: HashTable::with_capacity(rules.len() * RULE_TABLE_CAPACITY_MULTIPLIER),
+            unkeyed_rules: Vec::new(),
         };
-        for rule in rules {
-            let hash = section_name_prefix_hash(rule.name_matcher.prefix_bytes())
-                .expect("Prefixes of length less than 4 not yet supported");
-
-            map.rules.insert_unique(hash, rule.clone(), |existing| {
-                section_name_prefix_hash(existing.name_matcher.prefix_bytes()).unwrap_or(0)
-            });
+        for (index, rule) in rules.iter().enumerate() {
+            if let Some(hash) = rule.name_matcher.key_hash() {
+                map.rules
+                    .insert_unique(hash, (index, rule.clone()), |(_, existing)| {
+                        existing.name_matcher.key_hash().unwrap_or(0)
+                    });
+            } else {
+                map.unkeyed_rules.push((index, rule.clone()));
+            }
         }
 
         map
@@ -458,11 +476,21 @@ impl<'data> SectionRules<'data> {
             return SectionRuleOutcome::Discard;
         }
 
-        if let Some(hash) = section_name_prefix_hash(section_name)
-            && let Some(rule) = self
-                .rules
-                .find(hash, |rule| rule.matches(section_name, file_name))
-        {
+        let keyed = section_name_prefix_hash(section_name).and_then(|hash| {
+            self.rules
+                .find(hash, |(_, rule)| rule.matches(section_name, file_name))
+        });
+        let unkeyed = self
+            .unkeyed_rules
+            .iter()
+            .find(|(_, rule)| rule.matches(section_name, file_name));
+
+        // The first rule that matches wins, whichever way we found it.
+        let first = match (keyed, unkeyed) {
+            (Some(a), Some(b)) => Some(if a.0 < b.0 { a } else { b }),
+            (a, b) => a.or(b),
+        };
+        if let Some((_, rule)) = first {
             return rule.outcome;
         }
 
